@@ -364,7 +364,9 @@ func (d *TCPDialer) tryDial(
 	defer cancelCtx()
 	conn, err := dialer.DialContext(ctx, network, addr)
 	if err != nil {
-		if ctx.Err() == context.DeadlineExceeded {
+		// The connection deadline derived from ctx may fire before ctx itself
+		// is marked as done, so check the deadline as well.
+		if ctx.Err() == context.DeadlineExceeded || time.Until(deadline) <= 0 {
 			return nil, wrapDialWithUpstream(ErrDialTimeout, addr)
 		}
 		return nil, wrapDialWithUpstream(err, addr)
